@@ -20,8 +20,19 @@
 #include <stdio.h>
 #include <stdlib.h>
 #include <string.h>
+#include <pthread.h>
 #include <sys/time.h>
 #include <unistd.h>
+
+#if !defined(TW_RANK_PART) && !defined(TW_SHARED_PART)
+#define TW_RANK_PART
+#define TW_SHARED_PART
+#endif
+#ifdef TW_SHARED_PART
+#define SHARED
+#else
+#define SHARED extern
+#endif
 
 /* ------------------------------------------------------------------ model tables */
 #define MAXLP 64
@@ -43,7 +54,7 @@ struct trans {
 	int draw, lib, mem;
 	struct outcome out[MAXD];
 };
-static struct {
+SHARED struct model_tables {
 	int nlps, K, T, P;
 	int need[MAXLP], cap[MAXLP];
 	int endmask[MAXK];
@@ -62,6 +73,7 @@ static void die(const char *m)
 	_exit(2);
 }
 
+#ifdef TW_SHARED_PART
 static int rdint(FILE *f)
 {
 	int v;
@@ -123,6 +135,8 @@ static void model_load(const char *path)
 	fclose(f);
 }
 
+#endif
+
 static int pid_of(const void *pl, unsigned sz)
 {
 	for(int p = 0; p < M.P; ++p)
@@ -132,12 +146,17 @@ static int pid_of(const void *pl, unsigned sz)
 }
 
 /* ------------------------------------------------------------------ trace output */
-static FILE *out;
-static unsigned long seqno;
-static int serial_mode;
-static int quiet_core; /* suppress core hook lines (serial reference runs keep only model lines) */
-static long stop_at = -1;
-static int stop_lp = -1, stop_cnt = -1;
+SHARED FILE *out;
+SHARED unsigned long seqno;
+SHARED int serial_mode;
+SHARED int quiet_core; /* suppress core hook lines (serial reference runs keep only model lines) */
+SHARED long stop_at;
+SHARED int stop_lp, stop_cnt;
+SHARED int dist_ranks; /* 0: single node */
+SHARED int contract_bad;
+SHARED int never_end;
+SHARED unsigned long hook_count;
+SHARED unsigned batch_size;
 
 #define INF_T 1073741824L
 
@@ -160,10 +179,14 @@ static long bits2i(uint64_t b)
 	return t2i(d);
 }
 
+#ifdef TW_RANK_PART
 static int thr_id(void)
 {
-	return serial_mode ? 0 : (int)rid;
+	return serial_mode ? 0 : (dist_ranks ? (int)nid * 8 + (int)rid : (int)rid);
 }
+#else
+static int thr_id(void) { return -1; }
+#endif
 
 #define EMIT(...)                                                                                                      \
 	do {                                                                                                           \
@@ -174,11 +197,11 @@ static int thr_id(void)
 
 /* ------------------------------------------------------------------ message identities */
 #define HT_SIZE (1U << 16)
-static struct {
+SHARED struct mid_slot {
 	uintptr_t p;
 	long id;
 } ht[HT_SIZE];
-static long next_mid = 1;
+SHARED long next_mid;
 
 static unsigned ht_slot(uintptr_t p)
 {
@@ -204,6 +227,7 @@ static long mid_of(const void *p)
 	return ht[h].p ? ht[h].id : -1;
 }
 
+#ifdef TW_RANK_PART
 /* ------------------------------------------------------------------ model interpreter */
 struct buf {
 	uint32_t len;
@@ -245,7 +269,7 @@ static uint64_t fnv(uint64_t h, const void *p, size_t n)
 static const unsigned buf_sizes[] = {1, 24, 64, 65, 200, 1000, 4096, 20000, 40000, 65536};
 #define NBS (sizeof(buf_sizes) / sizeof(*buf_sizes))
 
-static int contract_bad;
+
 
 static void fill(struct buf *b, uint32_t from, uint64_t k)
 {
@@ -458,7 +482,7 @@ static int pred_of(const struct lpst *st, lp_id_t me)
 	return st && (int)st->cnt >= M.need[me] && M.endmask[st->s];
 }
 
-static int never_end;
+
 
 static bool CanEnd(lp_id_t me, const void *snapshot)
 {
@@ -552,7 +576,7 @@ static void ProcessEvent(lp_id_t me, simtime_t now, unsigned ty, const void *pl,
 
 /* ------------------------------------------------------------------ the hook */
 static const char *tph_name[] = {"idle", "A", "B", "C", "D"};
-static unsigned long hook_count;
+
 
 static void emit_state(const char *ev, lp_id_t lp, long m, uint64_t x, uint64_t y)
 {
@@ -565,9 +589,15 @@ static void emit_state(const char *ev, lp_id_t lp, long m, uint64_t x, uint64_t 
 	    dg.blocks, dg.live, dg.size, dg.calc, pred_of(st, lp));
 }
 
+#ifdef TW_DIST
+extern int thr_tag[64];
+#endif
 void verif_hook(unsigned p, uint64_t a, uint64_t b, uint64_t c, uint64_t d)
 {
 	++hook_count;
+#ifdef TW_DIST
+	thr_tag[vs_self()] = thr_id();
+#endif
 	if(!(serial_mode && quiet_core))
 		switch(p) {
 			case VP_YIELD:
@@ -592,7 +622,7 @@ void verif_hook(unsigned p, uint64_t a, uint64_t b, uint64_t c, uint64_t d)
 			}
 			case VP_Q_PUSH: {
 				const struct lp_msg *m = (void *)a;
-				EMIT("\"e\":\"Push\",\"m\":%ld,\"q\":%d,\"d\":%d,\"t\":%ld,\"ty\":%u,\"pid\":%d", mid_of(m), (int)b,
+				EMIT("\"e\":\"Push\",\"m\":%ld,\"q\":%d,\"d\":%d,\"t\":%ld,\"ty\":%u,\"pid\":%d", mid_of(m), dist_ranks ? (int)nid * 8 + (int)b : (int)b,
 				    (int)m->dest, t2i(m->dest_t), m->m_type, pid_of(m->pl, m->pl_size));
 				break;
 			}
@@ -716,13 +746,36 @@ void verif_hook(unsigned p, uint64_t a, uint64_t b, uint64_t c, uint64_t d)
 	vs_yield(p, (unsigned long)a);
 }
 
-static unsigned batch_size = 64;
+
 unsigned verif_batch(unsigned dflt)
 {
 	(void)dflt;
 	return batch_size;
 }
 
+/* entry point of one rank: configure and run the real runtime */
+int rank_run(int threads, int ckpt, unsigned gvt_period, double term_time, const char *stats, unsigned long prng)
+{
+	struct simulation_configuration conf = {0};
+	conf.lps = (lp_id_t)M.nlps;
+	conf.n_threads = serial_mode ? 1 : (unsigned)threads;
+	conf.termination_time = term_time;
+	conf.gvt_period = gvt_period;
+	conf.log_level = LOG_SILENT;
+	conf.stats_file = stats;
+	conf.ckpt_interval = (unsigned)ckpt;
+	conf.prng_seed = prng;
+	conf.core_binding = false;
+	conf.serial = serial_mode;
+	conf.dispatcher = ProcessEvent;
+	conf.committed = CanEnd;
+	if(RootsimInit(&conf))
+		return -100;
+	return RootsimRun();
+}
+#endif /* TW_RANK_PART */
+
+#ifdef TW_SHARED_PART
 /* ------------------------------------------------------------------ virtual clock */
 int __wrap_gettimeofday(struct timeval *tv, void *tz)
 {
@@ -816,9 +869,59 @@ static void on_signal(int sig)
 	_exit(3);
 }
 
+#ifdef TW_DIST
+extern int r0_rank_run(int, int, unsigned, double, const char *, unsigned long);
+extern int r1_rank_run(int, int, unsigned, double, const char *, unsigned long);
+extern int r2_rank_run(int, int, unsigned, double, const char *, unsigned long);
+extern void fm_init(int ranks, unsigned long seed, int mode);
+extern void fm_set_rank(int r);
+struct rank_args {
+	int k, threads, ckpt;
+	unsigned period;
+	double term;
+	unsigned long prng;
+	int ret;
+};
+static void *rank_main(void *p)
+{
+	struct rank_args *a = p;
+	fm_set_rank(a->k);
+	int (*fn[3])(int, int, unsigned, double, const char *, unsigned long) = {r0_rank_run, r1_rank_run, r2_rank_run};
+	a->ret = fn[a->k](a->threads, a->ckpt, a->period, a->term, NULL, a->prng);
+	return NULL;
+}
+static int run_all(int threads, int ckpt, unsigned gvt_period, double term_time, const char *stats, unsigned long prng)
+{
+	(void)stats;
+	struct rank_args ra[3];
+	pthread_t th[3];
+	for(int k = 0; k < dist_ranks; ++k) {
+		ra[k] = (struct rank_args){k, threads, ckpt, gvt_period, term_time, prng, 0};
+		pthread_create(&th[k], NULL, rank_main, &ra[k]);
+	}
+	int r = 0;
+	for(int k = 0; k < dist_ranks; ++k) {
+		pthread_join(th[k], NULL);
+		r |= ra[k].ret;
+	}
+	return r;
+}
+#else
+extern int rank_run(int, int, unsigned, double, const char *, unsigned long);
+static int run_all(int threads, int ckpt, unsigned gvt_period, double term_time, const char *stats, unsigned long prng)
+{
+	return rank_run(threads, ckpt, gvt_period, term_time, stats, prng);
+}
+#endif
+
 int main(int argc, char **argv)
 {
+	stop_at = -1;
+	stop_lp = stop_cnt = -1;
+	next_mid = 1;
+	batch_size = 64;
 	const char *model = NULL, *outp = NULL, *script = NULL, *stats = NULL;
+	int net_mode = 0;
 	int threads = 2, ckpt = 0, policy = 0;
 	unsigned gvt_period = 0, num = 1, den = 4;
 	unsigned long budget = 4000000, seed = 1, prng = 12345;
@@ -845,6 +948,8 @@ int main(int argc, char **argv)
 		else if(!strcmp(a, "--term-time")) term_time = atof(v), ++i;
 		else if(!strcmp(a, "--stats")) stats = v, ++i;
 		else if(!strcmp(a, "--batch")) batch_size = (unsigned)atoi(v), ++i;
+		else if(!strcmp(a, "--ranks")) dist_ranks = atoi(v), ++i;
+		else if(!strcmp(a, "--net")) net_mode = atoi(v), ++i;
 		else die("unknown argument");
 	}
 	if(!model || !outp)
@@ -860,32 +965,24 @@ int main(int argc, char **argv)
 	signal(SIGBUS, on_signal);
 	signal(SIGFPE, on_signal);
 
-	struct simulation_configuration conf = {0};
-	conf.lps = (lp_id_t)M.nlps;
-	conf.n_threads = serial_mode ? 1 : (unsigned)threads;
-	conf.termination_time = term_time;
-	conf.gvt_period = gvt_period;
-	conf.log_level = LOG_SILENT;
-	conf.stats_file = stats;
-	conf.ckpt_interval = (unsigned)ckpt;
-	conf.prng_seed = prng;
-	conf.core_binding = false;
-	conf.serial = serial_mode;
-	conf.dispatcher = ProcessEvent;
-	conf.committed = CanEnd;
-
 	fprintf(out,
 	    "{\"n\":0,\"thr\":-1,\"e\":\"Config\",\"serial\":%d,\"threads\":%d,\"ckpt\":%d,\"period\":%u,\"seed\":%lu,"
-	    "\"prng\":%lu,\"term\":%ld,\"nlps\":%d,\"batch\":%u,\"nev\":%d,\"sw\":\"%u/%u\",\"policy\":%d,\"stopat\":%ld}\n",
-	    serial_mode, threads, ckpt, gvt_period, seed, prng, term_time > 0 ? (long)term_time : INF_T, M.nlps, batch_size, never_end, num, den, policy, stop_at);
+	    "\"prng\":%lu,\"term\":%ld,\"nlps\":%d,\"batch\":%u,\"nev\":%d,\"sw\":\"%u/%u\",\"policy\":%d,\"stopat\":%ld,\"ranks\":%d,\"net\":%d}\n",
+	    serial_mode, threads, ckpt, gvt_period, seed, prng, term_time > 0 ? (long)term_time : INF_T, M.nlps, batch_size, never_end, num, den, policy, stop_at,
+	    dist_ranks, net_mode);
 
 	vs_set_hang_cb(on_hang);
 	vs_init(seed, num, den, budget, policy);
+#ifdef TW_DIST
+	if(dist_ranks < 1 || dist_ranks > 3)
+		die("--ranks 1..3 required");
+	fm_init(dist_ranks, seed, net_mode);
+#else
+	(void)net_mode;
+#endif
 	if(script)
 		vs_load_script(script);
-	if(RootsimInit(&conf))
-		die("RootsimInit failed");
-	int r = RootsimRun();
+	int r = run_all(threads, ckpt, gvt_period, term_time, stats, prng);
 	if(stats)
 		dump_stats(stats);
 	fprintf(out, "{\"n\":%lu,\"thr\":-1,\"e\":\"End\",\"ret\":%d,\"bad\":%d,\"steps\":%lu}\n", ++seqno, r, contract_bad,
@@ -893,3 +990,4 @@ int main(int argc, char **argv)
 	fclose(out);
 	return 0;
 }
+#endif /* TW_SHARED_PART */
